@@ -73,6 +73,9 @@ func c08Gen(r *RNG, id string) *Case {
 	}
 	nq := r.Range(1, 5)
 	nt := r.Range(1, 30)
+	if m := manyRecords(r, c, 25); m > 0 {
+		nt = m
+	}
 	var qs, ts []string
 	for i := 0; i < nq; i++ {
 		qs = append(qs, seqFromPool(r, ref, pool, r.Range(0, 4), r.PickInt([]int{0, 0, 0, 1, 2})))
